@@ -2013,3 +2013,15 @@ MA('C09', 'L2 gradient vanishes below an absolute tolerance',
    'if norm_of_x == 0:...',
    'if norm_of_x <= np.finfo(float).resolution * 10:\n    return self.domain.zero()\nelse:\n    return x / norm_of_x',
    'L2Norm[')
+MA('C12', 'linearized ADMM shares the domain temporary with the range temporary',
+   'odl/solvers/nonsmooth/admm.py', 'admm_linearized',
+   'tmp_dom = L.domain.element()',
+   'tmp_dom = tmp_ran if L.domain == L.range else L.domain.element()', 'R10')
+MA('C12', 'default Landweber relaxation estimated from the start vector',
+   'odl/solvers/iterative/iterative.py', 'landweber',
+   'omega = 1 / op.norm(estimate=True) ** 2',
+   'omega = 1 / op.norm(estimate=True, xstart=x) ** 2', 'R2c')
+MA('C05', 'wavelet adjoint scaled by the transformed axes only',
+   'odl/trafos/wavelet.py', 'WaveletTransform.adjoint',
+   'scale = 1 / self.domain.partition.cell_volume',
+   'scale = 1 / np.prod(self.domain.cell_sides[list(self.axes)])', 'R9w')
